@@ -34,13 +34,55 @@ import (
 
 // ---------------------------------------------------------------- trees
 
+// Seg describes a stretch of a large file compactly: Rep copies of byte B, then Lit.
+type Seg struct {
+	Rep int    `json:"rep,omitempty"`
+	B   byte   `json:"b,omitempty"`
+	Lit []byte `json:"lit,omitempty"`
+}
+
 type Node struct {
 	Kind       string  `json:"kind"` // file | dir | link
 	Name       string  `json:"name"`
 	Content    []byte  `json:"content,omitempty"`
+	Segs       []Seg   `json:"segs,omitempty"` // large files: the content is the expansion of the segments
 	Unreadable bool    `json:"unreadable,omitempty"`
 	Target     string  `json:"target,omitempty"`
 	Children   []*Node `json:"children,omitempty"`
+}
+
+// data returns the bytes of a regular file
+func (n *Node) data() []byte {
+	if len(n.Segs) == 0 {
+		return n.Content
+	}
+	var out []byte
+	for _, sg := range n.Segs {
+		for i := 0; i < sg.Rep; i++ {
+			out = append(out, sg.B)
+		}
+		out = append(out, sg.Lit...)
+	}
+	return out
+}
+
+func (n *Node) coqContent() string {
+	if len(n.Segs) == 0 {
+		return lib.CoqStr(string(n.Content))
+	}
+	var parts []string
+	for _, sg := range n.Segs {
+		if sg.Rep > 0 {
+			parts = append(parts, fmt.Sprintf("rep_bytes %d %d", sg.Rep, sg.B))
+		}
+		if len(sg.Lit) > 0 {
+			parts = append(parts, lib.CoqStr(string(sg.Lit)))
+		}
+	}
+	if len(parts) == 0 {
+		return "(@nil N)"
+	}
+	return "(" + strings.Join(parts, " ++ ") + ")"
 }
 
 func (n *Node) sortRec() {
@@ -109,7 +151,7 @@ func (n *Node) hasUnreadable() bool {
 func (n *Node) coq() string {
 	switch n.Kind {
 	case "file":
-		return "(File " + lib.CoqStr(string(n.Content)) + " " + lib.CoqBool(!n.Unreadable) + ")"
+		return "(File " + n.coqContent() + " " + lib.CoqBool(!n.Unreadable) + ")"
 	case "link":
 		return "(Symlink " + lib.CoqStr(n.Target) + ")"
 	}
@@ -132,7 +174,7 @@ func materialise(n *Node, at string) {
 		}
 	case "file":
 		mode := os.FileMode(0o644)
-		if err := os.WriteFile(at, n.Content, mode); err != nil {
+		if err := os.WriteFile(at, n.data(), mode); err != nil {
 			panic(err)
 		}
 		if n.Unreadable {
@@ -167,6 +209,7 @@ type Input struct {
 	Norm     bool                         `json:"norm"`
 	Follow   bool                         `json:"follow"`
 	Products map[string]map[string]string `json:"products,omitempty"` // match: link products as alg -> "alg:bytes" tags
+	Big      bool                         `json:"big,omitempty"`      // contains files whose model evaluation needs a deep stack
 }
 
 func applyOps(t *Node, ops []Op) *Node {
@@ -185,6 +228,7 @@ func applyOps(t *Node, ops []Op) *Node {
 					panic("write over non-file")
 				}
 				c.Content = append([]byte(nil), op.Content...)
+				c.Segs = nil
 			} else {
 				dir.Children = append(dir.Children, &Node{Kind: "file", Name: name, Content: append([]byte(nil), op.Content...)})
 			}
@@ -280,7 +324,7 @@ func (d dehasher) addTree(n *Node) {
 		return
 	}
 	if n.Kind == "file" {
-		d.add(n.Content)
+		d.add(n.data())
 	}
 	for _, c := range n.Children {
 		d.addTree(c)
@@ -305,7 +349,17 @@ func (d dehasher) artifacts(m map[string]intoto.HashObj) map[string]intoto.HashO
 }
 
 // the pseudo digest the model computes (tag_hash of coq/model/Record.v): "alg:" + hex of the bytes
-func tagOf(alg string, b []byte) string { return alg + ":" + hex.EncodeToString(b) }
+// long inputs: length and a 40-bit shift-add hash (h40 of the model)
+func tagOf(alg string, b []byte) string {
+	if len(b) <= 64 {
+		return alg + ":" + hex.EncodeToString(b)
+	}
+	h := uint64(5381)
+	for _, c := range b {
+		h = ((h << 5) + h + uint64(c)) & 1099511627775
+	}
+	return fmt.Sprintf("%s:#%d.%d", alg, len(b), h)
+}
 
 // tag -> the real digest (for building link products)
 func untag(tag string) string {
@@ -643,7 +697,7 @@ func (o *oracle) visit(name string, phys []string, n *Node) {
 		if o.excluded(ex) {
 			return
 		}
-		o.record(name, n.Content, n.Unreadable)
+		o.record(name, n.data(), n.Unreadable)
 	case "link":
 		if o.excluded(ex) {
 			return
@@ -658,7 +712,7 @@ func (o *oracle) visit(name string, phys []string, n *Node) {
 			if o.physical && o.excluded(renderPath(tp)) {
 				return
 			}
-			o.record(name, t.Content, t.Unreadable)
+			o.record(name, t.data(), t.Unreadable)
 			return
 		}
 		if !o.follow {
@@ -1168,6 +1222,110 @@ func genChain(r *lib.Rng, n int) (*Input, string) {
 	return in, fmt.Sprintf("chain-%d", n)
 }
 
+// ---- large files: CR / LF / CRLF at and around buffer boundaries ----
+
+var bigPatterns = []string{"\r\n", "\r", "\n", "\r\r\n", "\r\n\r\n", "\n\r", "\r\r", "\r\n\r"}
+var bigBlocks = []int{4096, 32768, 65536}
+
+type placement struct {
+	at  int
+	pat string
+}
+
+// a file of exactly n bytes: filler with the given patterns written over it
+func bigSegs(n int, filler byte, pl []placement) []Seg {
+	sort.Slice(pl, func(i, j int) bool { return pl[i].at < pl[j].at })
+	var segs []Seg
+	pos := 0
+	for _, p := range pl {
+		if p.at < pos || p.at+len(p.pat) > n {
+			continue
+		}
+		segs = append(segs, Seg{Rep: p.at - pos, B: filler, Lit: []byte(p.pat)})
+		pos = p.at + len(p.pat)
+	}
+	if pos < n {
+		segs = append(segs, Seg{Rep: n - pos, B: filler})
+	}
+	if len(segs) == 0 {
+		segs = []Seg{{Rep: 0, B: filler, Lit: []byte{}}}
+	}
+	return segs
+}
+
+func bigSize(r *lib.Rng) int {
+	thorough := os.Getenv("VERIF_TIER") == "thorough"
+	small := []int{512, 1024, 2048, 4096, 8192, 16384}
+	mid := []int{32768, 65536}
+	large := []int{131072, 196608, 262144, 307200}
+	k := r.Intn(100)
+	var base int
+	switch {
+	case k < 45:
+		base = small[r.Intn(len(small))]
+	case k < 90 || (!thorough && k < 94):
+		base = mid[r.Intn(len(mid))]
+	default:
+		base = large[r.Intn(len(large))]
+	}
+	return base + r.Range(-1, 1)
+}
+
+func genBigFile(r *lib.Rng, name string, n int) *Node {
+	filler := []byte{'a', 'a', 'a', 'z', '\n', 0xff}[r.Intn(6)]
+	var pl []placement
+	for _, blk := range bigBlocks {
+		for k := 1; k*blk-1 < n+2; k++ {
+			if !r.Chance(2, 3) && !(blk == 65536 && r.Chance(1, 2)) {
+				continue
+			}
+			pat := bigPatterns[r.Intn(len(bigPatterns))]
+			// some byte of the pattern sits on the last byte of the block, give or take one
+			at := k*blk - 1 - r.Intn(len(pat)) + []int{0, 0, 0, -1, 1}[r.Intn(5)]
+			if at < 0 {
+				at = 0
+			}
+			pl = append(pl, placement{at, pat})
+			if len(pl) >= 12 {
+				break
+			}
+		}
+	}
+	if r.Chance(1, 3) && n > 0 { // the file ends in a CR
+		pl = append(pl, placement{n - 1, "\r"})
+	}
+	return &Node{Kind: "file", Name: name, Segs: bigSegs(n, filler, pl)}
+}
+
+func genBig(r *lib.Rng, fixed int) (*Input, string) {
+	root := &Node{Kind: "dir"}
+	klass := "bigfile"
+	switch fixed {
+	case 1: // CRLF split by the 64 KiB boundary
+		root.Children = []*Node{{Kind: "file", Name: "big", Segs: bigSegs(65537, 'a', []placement{{65535, "\r\n"}})}}
+		klass = "bigfile-crlf-at-64k"
+	case 2: // every 64 KiB boundary of a 192 KiB file, different runs
+		root.Children = []*Node{{Kind: "file", Name: "big", Segs: bigSegs(196613, 'b',
+			[]placement{{4095, "\r\n"}, {32767, "\r\r\n"}, {65535, "\r\n\r\n"}, {131070, "\r\r\n"}, {196607, "\r\n"}, {196612, "\r"}})}}
+		klass = "bigfile-runs-at-64k"
+	default:
+		nf := r.Range(1, 2)
+		for i := 0; i < nf; i++ {
+			root.Children = append(root.Children, genBigFile(r, fmt.Sprintf("big%d", i), bigSize(r)))
+		}
+		if r.Chance(1, 3) {
+			root.Children = append(root.Children, &Node{Kind: "link", Name: "lnk", Target: "big0"})
+		}
+	}
+	root.sortRec()
+	in := &Input{Call: "record", Tree: root, Paths: []string{"."}, Algs: []string{"sha256", "sha384", "sha512"}, Norm: fixed > 0 || r.Chance(3, 4)}
+	if fixed == 0 && r.Chance(1, 4) {
+		in.Algs = algChoices[r.Intn(8)]
+	}
+	in.Big = true
+	return in, klass
+}
+
 func genOps(r *lib.Rng, root *Node) []Op {
 	var all []located
 	root.all(nil, &all)
@@ -1339,6 +1497,12 @@ func genCase(r *lib.Rng, i int) (*Input, string) {
 		return genChain(r, 255)
 	case i == 1:
 		return genChain(r, 257)
+	case i == 2:
+		return genBig(r, 1)
+	case i == 3:
+		return genBig(r, 2)
+	case k >= 96:
+		return genBig(r, 0)
 	case k < 8:
 		return genF11(r)
 	case k < 16:
